@@ -323,8 +323,52 @@ pub fn predicates(tier: Tier) -> Vec<E> {
 pub fn filter_sig(kind: &str, p: &E) -> String {
     if kind.starts_with("error:") || kind == "hang" || kind == "caller-panic" {
         format!("filter:{}", kind)
+    } else if is_tree(p) {
+        format!("filter:{}:tree:{}", kind, tree_profile(p))
     } else {
         format!("filter:{}:{}", kind, shape(p))
+    }
+}
+
+fn is_tree(p: &E) -> bool {
+    match p {
+        E::Bin(BinOp::And, ..) | E::Bin(BinOp::Or, ..) => true,
+        E::Not(a) => is_tree(a),
+        _ => false,
+    }
+}
+
+fn refs_nullable(e: &E) -> bool {
+    match e {
+        E::Col(c) => matches!(c.as_str(), "ni" | "nf" | "ns" | "absent"),
+        E::Int(_) | E::Float(_) | E::Str(_) => false,
+        E::Bin(_, a, b) => refs_nullable(a) || refs_nullable(b),
+        E::Not(a) | E::Neg(a) | E::IsNull(a) | E::IsNotNull(a) | E::Length(a) | E::Agg(_, a) => refs_nullable(a),
+        E::Like(a, _) | E::NotLike(a, _) | E::Regex(a, _) => refs_nullable(a),
+    }
+}
+
+/// Boolean structure of a tree with each leaf reduced to whether it involves a nullable column.
+fn tree_profile(p: &E) -> String {
+    match p {
+        E::Bin(BinOp::And, a, b) => format!("({} And {})", tree_profile(a), tree_profile(b)),
+        E::Bin(BinOp::Or, a, b) => format!("({} Or {})", tree_profile(a), tree_profile(b)),
+        E::Not(a) if is_tree(a) => format!("Not{}", tree_profile(a)),
+        E::Not(a) => format!("not-{}", tree_profile(a)),
+        E::IsNull(_) | E::IsNotNull(_) => "nulltest".into(),
+        other => if refs_nullable(other) { "nullable-atom".into() } else { "plain-atom".into() },
+    }
+}
+
+/// Leaves of a boolean tree.
+pub fn leaves(p: &E, out: &mut Vec<E>) {
+    match p {
+        E::Bin(BinOp::And, a, b) | E::Bin(BinOp::Or, a, b) => {
+            leaves(a, out);
+            leaves(b, out);
+        }
+        E::Not(a) if is_tree(a) => leaves(a, out),
+        other => out.push(other.clone()),
     }
 }
 
@@ -496,6 +540,22 @@ impl Engine for C03 {
                 }
                 out.outcome(&class);
                 if let Some((kind, what)) = bad {
+                    // a tree that fails because one of its leaves fails on its own is that leaf's failure
+                    let (mut kind, mut what, mut culprit) = (kind, what, p.clone());
+                    if is_tree(p) && !db.dead {
+                        let mut ls = vec![];
+                        leaves(p, &mut ls);
+                        for leaf in ls {
+                            let (_, b) = check_filter(&mut db, &rt, &leaf);
+                            if let Some((k, w)) = b {
+                                kind = k;
+                                what = w;
+                                culprit = leaf;
+                                break;
+                            }
+                        }
+                    }
+                    let p = &culprit;
                     if std::env::var("LVMC_TRACE").is_ok() {
                         eprintln!("[trace] {} :: {}", l.name, what);
                     }
